@@ -2,7 +2,7 @@
 // signature.  The hash functions are replaced by an ideal hash (equal transcripts <-> equal codes), so the
 // completed value is a faithful image of what was fed in.  Two task instances get arbitrary inputs for the same
 // directory; the signatures must agree exactly when the inputs agree on what the property makes observable:
-//   tree signature      : the directory's own value, every child's node value, every child's sub-signature
+//   tree signature      : the directory's own value, every field of every child's file record, every child's sub-signature
 //   structure signature : the directory's mode, every child's NAME and MODE (type), every child's sub-signature
 //                         - and nothing else (size, timestamps, inode: content-only changes do not trigger).
 #include "vf.h"
@@ -16,13 +16,14 @@
 // Ideal hash as a transcript: every hash operation appends (kind, operands, bytes) and returns the entry's position as
 // its code.  Under the ideal-hash reading (distinct transcripts <-> distinct codes) the final signatures of two runs are
 // equal exactly when their transcripts are equal and every entry feeds, directly or not, into the final one.
-struct Ent { int kind; uint64_t a, b; unsigned len; unsigned char d[4]; };
+#define VF_HB 96
+struct Ent { int kind; uint64_t a, b; unsigned len; unsigned char d[VF_HB]; };
 static Ent g_tr[2][12]; static unsigned g_ntr[2] = { 0, 0 }; static int g_run = 0;
 static uint64_t intern(int kind, uint64_t a, uint64_t b, const unsigned char* p, unsigned len) {
-  VF_ASSERT(len <= 4, "model: hashed byte range longer than 4 bytes (outside bound)"); if (len > 4) VF_STOP();
+  VF_ASSERT(len <= VF_HB, "model: hashed byte range longer than 96 bytes (outside bound)"); if (len > VF_HB) VF_STOP();
   unsigned n = g_ntr[g_run];
   VF_ASSERT(n < 12, "model: hash transcript full (outside bound)"); if (n >= 12) VF_STOP();
-  Ent& e = g_tr[g_run][n]; e.kind = kind; e.a = a; e.b = b; e.len = len; for (unsigned k = 0; k < 4; k++) e.d[k] = k < len ? p[k] : 0;
+  Ent& e = g_tr[g_run][n]; e.kind = kind; e.a = a; e.b = b; e.len = len; for (unsigned k = 0; k < VF_HB; k++) e.d[k] = k < len ? p[k] : 0;
   g_ntr[g_run] = n + 1;
   return 0x1000 + n;
 }
@@ -34,17 +35,17 @@ extern "C" uint64_t stub_hash_cu(const uint64_t* a, const uint64_t* b) { return 
 extern "C" uint64_t stub_hash_cs(const uint64_t* a, const std::string* s) { return intern(5, *a, 0, (const unsigned char*)s->data(), (unsigned)s->size()); }
 static unsigned char g_out[2][40]; static size_t g_outLen[2]; static unsigned g_completes = 0;
 extern "C" void stub_complete(core::TaskInterface*, core::ValueType* v, bool) { g_completes++; g_outLen[g_run] = v->size(); for (size_t i = 0; i < v->size() && i < 40; i++) g_out[g_run][i] = (*v)[i]; }
-struct In { unsigned char dir[2]; uint64_t dirMode, dirOther; unsigned char name[VF_NC]; unsigned char val[VF_NC][2]; uint64_t mode[VF_NC], other[VF_NC]; bool hasSig[VF_NC]; unsigned char sig[VF_NC][2]; };
+// a file record: device, inode, mode, size, seconds, nanoseconds (the checksum field is zero, as stat-based records have it)
+struct In { uint64_t dir[6]; unsigned char name[VF_NC]; uint64_t rec[VF_NC][6]; bool hasSig[VF_NC]; unsigned char sig[VF_NC][2]; };
 static void pick(In& in) {
-  for (int k = 0; k < 2; k++) in.dir[k] = nondet_u8();
-  in.dirMode = nondet_u64(); in.dirOther = nondet_u64();
-  for (int i = 0; i < VF_NC; i++) { uint8_t c = nondet_u8(); VF_ASSUME(c == 'a' || c == 'b'); in.name[i] = c; for (int k = 0; k < 2; k++) { in.val[i][k] = nondet_u8(); in.sig[i][k] = nondet_u8(); } in.mode[i] = nondet_u64(); in.other[i] = nondet_u64(); in.hasSig[i] = nondet_bool(); }
+  for (int f = 0; f < 6; f++) in.dir[f] = nondet_u64();
+  for (int i = 0; i < VF_NC; i++) { uint8_t c = nondet_u8(); VF_ASSUME(c == 'a' || c == 'b'); in.name[i] = c; for (int f = 0; f < 6; f++) in.rec[i][f] = nondet_u64(); for (int k = 0; k < 2; k++) in.sig[i][k] = nondet_u8(); in.hasSig[i] = nondet_bool(); }
 }
 // an encoded BuildValue with one output info (C15-K3 establishes the layout): kind, count 1, then the file record
-static core::ValueType* encInfo(uint8_t kind, uint64_t mode, uint64_t other, bool listing) {
+static core::ValueType* encInfo(uint8_t kind, const uint64_t* rec, bool listing) {
   core::ValueType& v = *new core::ValueType; v.reserve(128);
   v.push_back(kind); v.push_back(1); v.push_back(0); v.push_back(0); v.push_back(0);
-  for (int i = 0; i < 80; i++) { unsigned f = i / 8, sh = (i % 8) * 8; uint64_t w = f == 2 ? mode : (f == 0 || f == 3 || f == 4) ? other : f == 1 ? 1 : 0; v.push_back(i < 48 ? (uint8_t)(w >> sh) : 0); }
+  for (int i = 0; i < 80; i++) { unsigned f = i / 8, sh = (i % 8) * 8; v.push_back(i < 48 ? (uint8_t)(rec[f] >> sh) : 0); }
   if (listing) { for (int i = 0; i < 8; i++) v.push_back(0); }      // an empty string list
   return &v;
 }
@@ -53,20 +54,19 @@ static void run(int r, const In& in) {
   StringList& filters = *new StringList();
 #if VF_STRUCT
   DirectoryTreeStructureSignatureTask& t = *new DirectoryTreeStructureSignatureTask("d", std::move(filters));
-  t.directoryValue = *encInfo(4, in.dirMode, in.dirOther, true);
+  t.directoryValue = *encInfo(4, in.dir, true);
 #else
   DirectoryTreeSignatureTask& t = *new DirectoryTreeSignatureTask("d", std::move(filters));
-  t.directoryValue.push_back(in.dir[0]); t.directoryValue.push_back(in.dir[1]);
+  t.directoryValue = *encInfo(4, in.dir, true);
 #endif
   t.childResults.reserve(2);
   for (int i = 0; i < VF_NC; i++) {
     core::ValueType sig; sig.push_back(in.sig[i][0]); sig.push_back(in.sig[i][1]);
 #if VF_STRUCT
-    t.childResults.emplace_back(DirectoryTreeStructureSignatureTask::SubpathInfo{ std::string(1, (char)in.name[i]), *encInfo(2, in.mode[i], in.other[i], false), llvm::None });
+    t.childResults.emplace_back(DirectoryTreeStructureSignatureTask::SubpathInfo{ std::string(1, (char)in.name[i]), *encInfo(2, in.rec[i], false), llvm::None });
     if (in.hasSig[i]) t.childResults[i].directoryStructureSignatureValue = sig;
 #else
-    core::ValueType val; val.push_back(in.val[i][0]); val.push_back(in.val[i][1]);
-    t.childResults.emplace_back(DirectoryTreeSignatureTask::SubpathInfo{ std::string(1, (char)in.name[i]), val, llvm::None });
+    t.childResults.emplace_back(DirectoryTreeSignatureTask::SubpathInfo{ std::string(1, (char)in.name[i]), *encInfo(2, in.rec[i], false), llvm::None });
     if (in.hasSig[i]) t.childResults[i].directorySignatureValue = sig;
 #endif
   }
@@ -92,14 +92,15 @@ extern "C" void harness_sig(void) {
     }
   }
   bool sameOut = g_ntr[0] == g_ntr[1];
-  for (unsigned i = 0; i < 12; i++) if (i < g_ntr[0] && i < g_ntr[1]) { const Ent& x = g_tr[0][i]; const Ent& y = g_tr[1][i]; if (x.kind != y.kind || x.a != y.a || x.b != y.b || x.len != y.len || x.d[0] != y.d[0] || x.d[1] != y.d[1] || x.d[2] != y.d[2] || x.d[3] != y.d[3]) sameOut = false; }
+  for (unsigned i = 0; i < 12; i++) if (i < g_ntr[0] && i < g_ntr[1]) { const Ent& x = g_tr[0][i]; const Ent& y = g_tr[1][i]; if (x.kind != y.kind || x.a != y.a || x.b != y.b || x.len != y.len) sameOut = false; for (unsigned k = 0; k < VF_HB; k++) if (x.d[k] != y.d[k]) sameOut = false; }
   bool sameIn = true;
 #if VF_STRUCT
-  if (a.dirMode != b.dirMode) sameIn = false;
-  for (int i = 0; i < VF_NC; i++) { if (a.name[i] != b.name[i] || a.mode[i] != b.mode[i]) sameIn = false; }
+  if (a.dir[2] != b.dir[2]) sameIn = false;
+  for (int i = 0; i < VF_NC; i++) { if (a.name[i] != b.name[i] || a.rec[i][2] != b.rec[i][2]) sameIn = false; }
 #else
-  if (a.dir[0] != b.dir[0] || a.dir[1] != b.dir[1]) sameIn = false;
-  for (int i = 0; i < VF_NC; i++) { if (a.val[i][0] != b.val[i][0] || a.val[i][1] != b.val[i][1]) sameIn = false; }
+  // (the child's NAME is part of the listing held in the directory value; here the listing is empty and names are not compared)
+  for (int f = 0; f < 6; f++) if (a.dir[f] != b.dir[f]) sameIn = false;
+  for (int i = 0; i < VF_NC; i++) for (int f = 0; f < 6; f++) if (a.rec[i][f] != b.rec[i][f]) sameIn = false;
 #endif
   for (int i = 0; i < VF_NC; i++) { if (a.hasSig[i] != b.hasSig[i]) sameIn = false; else if (a.hasSig[i] && (a.sig[i][0] != b.sig[i][0] || a.sig[i][1] != b.sig[i][1])) sameIn = false; }
   if (sameIn) VF_ASSERT(sameOut, "nothing observable changed beneath the directory: the signature is unchanged (no re-execution)");
